@@ -61,15 +61,17 @@ def trivia(rng: random.Random, in_enum: bool) -> str:
     if k < 0.62 and not in_enum:
         return "\n"
     if k < 0.8:
-        return " /* c; } { , */ "
+        return rng.choice([" /* c; } { , */ ", " /* // not a line comment */ "])
     if k < 0.9 and not in_enum:
         return " /* multi\n line */ "
     if not in_enum:
-        return " // line ; { comment\n"
+        # (a line comment may contain what looks like the start of a block comment, a block comment what looks like a line comment)
+        return rng.choice([" // line ; { comment\n", " // see /* below ; {\n", " // 'quoted\n"])
     return " "
 
 
-def render(tokens, rng: random.Random) -> str:
+def render(tokens, rng: random.Random, glue: bool = False, crlf: bool = False) -> str:
+    """glue: a comment may be the ONLY separator between two words (in C a comment counts as one blank); crlf: lines end in CR LF."""
     out, prev, depth_enum = "", None, False
     pending_enum = False
     for kind, t in tokens:
@@ -92,11 +94,14 @@ def render(tokens, rng: random.Random) -> str:
                 sep = " "
         if prev is not None and WORD.match(prev[-1]) and WORD.match(t[0]) and not sep.strip(" \t") and not sep:
             sep = " "
+        if glue and prev is not None and WORD.match(prev[-1]) and WORD.match(t[0]) and rng.random() < 0.5:
+            sep = rng.choice(["/**/", "/* c */", "/* a\n b */"]) if not depth_enum else "/**/"
         out += sep + t
         if t == "}" and depth_enum:
             depth_enum = False
         prev = t
-    return out + "\n"
+    out += "\n"
+    return out.replace("\n", "\r\n") if crlf else out
 
 
 def type_signature(cs, names):
@@ -156,7 +161,7 @@ def check(run: Run) -> None:
     TYPEDEFS = ["typedef uint32 *ptr_t; typedef uint8 arr_t[4]; struct main { ptr_t p; arr_t a; uint16 t; };",
                 "typedef struct _s { uint8 a; uint16 b; } s_t, *sp_t; struct main { s_t s; sp_t q; uint8 t; };",
                 "typedef char *str_t; typedef str_t strs_t[2]; struct main { uint8 n; strs_t v; str_t w; };",
-                "typedef enum { A = 1, B } e_t; typedef e_t *ep_t; struct main { e_t e; ep_t p; uint8 x[2]; };",
+                "enum e_t : uint8 { A = 1, B }; typedef e_t *ep_t; typedef e_t ea_t[2]; struct main { e_t e; ep_t p; ea_t x; };",      # (typedef enum {...} name; is not in the library's grammar)
                 "typedef uint16 word_t; typedef word_t *wp_t; typedef union { word_t w; uint8 b[2]; } u_t; struct main { wp_t p; u_t u; };",
                 "enum E1 : unsigned int { E1_A = 1, E1_B };\nflag F1 : unsigned long long { F1_A = 1 };\nstruct main { E1 e; F1 f; unsigned short us; uint8 **pp; uint16 grid[2][3]; uint8 bf : 3; };",
                 "struct main { uint8 ***ppp; char *names[2]; uint32 m[2][2][1]; unsigned char uc[3]; };"]
@@ -170,7 +175,11 @@ def check(run: Run) -> None:
         n_defs += 1
         try:
             base = structs.load(text, compiled=False)
-        except Exception:  # noqa: BLE001
+        except Exception as e:  # noqa: BLE001
+            if i >= n_gen:
+                # the fixed typedef definitions are plain C: not loading them is a failure, not a reason to skip
+                failures += 1
+                run.report("C13/typedef-rejected", {"definition": text, "ops": [{"op": "load", "observed": f"{type(e).__name__}: {e}", "expected": "the types"}]})
             continue
         names = [n for n in base.typedefs if n not in cstruct().typedefs]
         ref = type_signature(base, names)
@@ -178,9 +187,10 @@ def check(run: Run) -> None:
         refparse = structs.parse(base, "main", data, 0)
         refkey = ("ok", structs.py_value(refparse[1], base.resolve("main")), refparse[2]) if refparse[0] == "ok" else ("err", type(refparse[1]).__name__)
         toks = tokens_of_definition(text)
-        for rep in range(3):
+        for rep in range(5):
             n_oracle += 1
-            variant = render(toks, rng)
+            # renderings 4 and 5: a comment as the only separator between two words; CR LF line ends (line comments end in front of the CR)
+            variant = render(toks, rng, glue=(rep == 3), crlf=(rep == 4))
             prob = None
             try:
                 cs = structs.load(variant, compiled=False)
@@ -307,6 +317,69 @@ def check(run: Run) -> None:
                         alias_probs.append(f"re-declaring {nm} for the same target rejected: {e!r}")
             if c3.resolve(nm) is not c3.resolve(same):
                 alias_probs.append(f"{nm} no longer resolves to {same}")
+    # several names after a struct typedef, pointer and array declarators among them, in any order: every name is bound to the structure itself
+    for text in ("typedef struct _s { uint8 a; uint16 b; } s_t, *sp_t, sa_t[3];", "typedef struct _s { uint8 a; uint16 b; } *sp_t, s_t, sa_t[3];",
+                 "typedef struct { uint8 a; uint16 b; } sa_t[3], s_t, *sp_t;", "typedef struct { uint8 a; uint16 b; } *sp_t, sa_t[3], s_t;"):
+        n_oracle += 1
+        try:
+            c8 = cstruct()
+            c8.load(text)
+            S = c8.resolve("s_t")
+            facts = (S.__name__.isidentifier(), [f._name for f in S.__fields__], c8.resolve("sp_t").type is S, c8.resolve("sa_t").type is S, c8.resolve("sa_t").num_entries,
+                     c8.resolve("_s") is S if "_s" in text else True)
+            if facts != (True, ["a", "b"], True, True, 3, True):
+                alias_probs.append(f"{text}: names are not bound to the one structure: {facts!r}")
+        except Exception as e:  # noqa: BLE001
+            alias_probs.append(f"{text}: {type(e).__name__}: {e}")
+    # histories: lookups made before a definition failed / before a target was replaced must not be remembered
+    n_oracle += 4
+    for compiled in (False, True):
+        c6 = cstruct()
+        try:
+            c6.load("struct node { uint8 a; node *next; missing_t x; };", compiled=compiled)
+            alias_probs.append("a definition with an unknown member type loaded")
+        except Exception:  # noqa: BLE001
+            pass
+        for later in ("struct list { node *head; };", "typedef node node_t;", "struct uses { uint8 k; node n; };"):
+            try:
+                c6.load(later, compiled=compiled)
+                alias_probs.append(f"after a failed definition of node, '{later}' binds to something instead of raising ResolveError")
+            except ResolveError:
+                pass
+            except Exception as e:  # noqa: BLE001
+                alias_probs.append(f"after a failed definition of node, '{later}' raises {e!r} instead of ResolveError")
+    c7 = cstruct()
+    c7.load("typedef uint32 T1; typedef T1 T2;")
+    # (built-in synonyms are entries that name another entry; a typedef made from a definition text is bound to the type it named when it was loaded)
+    before = (c7.resolve("DWORD"), c7.resolve("ULONG"), c7.resolve("uint32_t"))
+    c7.add_type("uint32", c7.uint16, replace=True)
+    after = (c7.resolve("DWORD"), c7.resolve("ULONG"), c7.resolve("uint32_t"), c7.resolve("uint32"))
+    if not all(t is c7.uint16 for t in after) or not all(t is not c7.uint16 for t in before):
+        alias_probs.append("aliases of a replaced type do not follow their target: " + repr([t.__name__ for t in after]))
+    # array and pointer targets: every declaration builds a new class, the SAME declaration is still the same target (a header loaded twice)
+    for first, same, others in [("typedef uint32 arr_t[4];", "typedef uint32 arr_t[4];", ["typedef uint32 arr_t[5];", "typedef int32 arr_t[4];", "typedef uint32 arr_t;", "typedef uint32 *arr_t;"]),
+                                ("typedef uint32 *ptr_t;", "typedef uint32 *ptr_t;", ["typedef uint16 *ptr_t;", "typedef uint32 ptr_t[1];"]),
+                                ("typedef uint8 m_t[2][3];", "typedef uint8 m_t[2][3];", ["typedef uint8 m_t[3][2];", "typedef uint8 m_t[6];"]),
+                                ("typedef char str_t[];", "typedef char str_t[];", ["typedef char str_t[1];", "typedef wchar str_t[];"]),
+                                ("typedef uint8 a4_t[4]; typedef a4_t *pa_t;", "typedef a4_t *pa_t;", ["typedef uint8 *pa_t;"])]:
+        n_oracle += 1 + len(others)
+        for one_load in (True, False):
+            c4 = cstruct()
+            try:
+                if one_load:
+                    c4.load(first + " " + same)
+                else:
+                    c4.load(first)
+                    c4.load(same)
+            except Exception as e:  # noqa: BLE001
+                alias_probs.append(f"re-declaring an alias for the same target rejected ({first} {same}): {e!r}")
+                continue
+            for other in others:
+                try:
+                    c4.load(other)
+                    alias_probs.append(f"re-declaring an alias for a different target accepted: {first} then {other}")
+                except ValueError:
+                    pass
     try:
         cs.resolve("no_such_type")
         alias_probs.append("unknown alias resolved")
@@ -341,6 +414,27 @@ def check(run: Run) -> None:
         failures += 1
         run.report("C13/enum-body-newline", {"definition": "enum E : uint8 { A,\\n B\\n =\\n A\\n +\\n 4, C };", "ops": [{"op": "load", "observed": {k: int(v.value) for k, v in b.E.__members__.items()},
                    "expected": {k: int(v.value) for k, v in a.E.__members__.items()}}]})
+
+    # ---- a member named `flag` (an identifier in C, a keyword of the definition language only in front of a flag definition):
+    #      blanks around the ':' of a bit field must not matter (struct, union, enum, typedef are C keywords and no member names) ----
+    for kw in ("flag", "flags", "Flag"):
+        for tail in ("", "\nstruct t { uint8 x; };"):
+            n_oracle += 1
+            tight = f"struct s {{ uint8 {kw}:1; uint8 rest:7; }};" + tail
+            spaced = f"struct s {{ uint8 {kw} : 1; uint8 rest : 7; }};" + tail
+            outs = []
+            for text in (tight, spaced):
+                try:
+                    c5 = cstruct()
+                    c5.load(text)
+                    outs.append([(f._name, f.type.__name__, f.bits) for f in c5.s.__fields__])
+                except Exception as e:  # noqa: BLE001
+                    outs.append(f"{type(e).__name__}: {e}")
+            if outs[0] != outs[1]:
+                failures += 1
+                # recorded finding for `flag` / `enum` followed by a later "{ ... };": the ENUM token pattern is tried at every position
+                sig = "C13/keyword-named-bit-field" if kw == "flag" and tail and isinstance(outs[1], str) and outs[1].startswith("ParserError") and isinstance(outs[0], list) else "C13/trivia"
+                run.report(sig, {"definition": spaced, "ops": [{"op": "load", "observed": outs[1], "expected": outs[0]}]})
 
     F.obligation_fallback(run, ok, bool(failures or bad))
     cov = run.coverage
